@@ -11,7 +11,7 @@
    [pinned] the code as it is. *)
 From Coq Require Import List String ZArith Bool.
 Import ListNotations.
-From Onet Require Import Api.Rest Api.RestConc Api.RestProofs Api.RestConcProofs Corr.C14 Api.CheckProofs.
+From Onet Require Import Api.Rest Api.RestConc Api.RestProofs Api.RestConcProofs Api.Par Api.ParProofs Corr.C14 Api.CheckProofs.
 Local Open Scope string_scope.
 
 (* Sequential form: any history, from any state an earlier history left behind. *)
@@ -228,3 +228,81 @@ Theorem c14_fixed_scenario_ok : forall w clients rounds a,
   scenario_ok all_fixed w clients a rounds (map (map (spec w clients)) rounds) = true.
 Proof. exact scenario_ok_fixed_spec. Qed.
 Print Assumptions c14_fixed_scenario_ok.
+
+(* ---- the client's parallel sender (SendProtobufParallelWithDecoder) --------------------- *)
+
+(* [prun false ...] runs the transition system of Api/Par.v for the code as it is along an
+   arrival order of the replies; [pinit par chosen] = [par] workers, nodes [chosen] to ask
+   (whatever ParallelOptions made of the node list).  For EVERY arrival order, number of
+   nodes and of workers: if a node has been accepted, ret holds exactly the reply that node
+   produced for this request; ... *)
+Theorem c14_par_accepted_reply : forall want_ret quit out par chosen arrivals n,
+  let s := prun false want_ret quit out (pinit par chosen) arrivals in
+  ps_acc s = Some n ->
+  exists r, acceptable want_ret out n r /\ (want_ret = true -> ps_ret s = Some r).
+Proof. exact par_accepted_reply. Qed.
+Print Assumptions c14_par_accepted_reply.
+
+(* ... if none has been, ret is untouched; ... *)
+Theorem c14_par_untouched_without_accept : forall want_ret quit out par chosen arrivals,
+  let s := prun false want_ret quit out (pinit par chosen) arrivals in
+  ps_acc s = None -> ps_ret s = None.
+Proof. exact par_untouched_without_accept. Qed.
+Print Assumptions c14_par_untouched_without_accept.
+
+(* ... replies that arrive later are dropped: neither the accepted node nor ret changes
+   (also after the call has returned); ... *)
+Theorem c14_par_ret_stable : forall want_ret quit out par chosen arrivals later n,
+  let s := prun false want_ret quit out (pinit par chosen) arrivals in
+  ps_acc s = Some n ->
+  ps_acc (prun false want_ret quit out s later) = Some n /\
+  ps_ret (prun false want_ret quit out s later) = ps_ret s.
+Proof. exact par_ret_stable. Qed.
+Print Assumptions c14_par_ret_stable.
+
+(* ... and the node the call returns is the accepted one, ret at the return being its reply. *)
+Theorem c14_par_result_node : forall want_ret quit out par chosen arrivals n first,
+  let s := prun false want_ret quit out (pinit par chosen) arrivals in
+  ps_result s = Some (RNode n, first) ->
+  ps_acc s = Some n /\ first = ps_ret s /\
+  exists r, acceptable want_ret out n r /\ (want_ret = true -> first = Some r).
+Proof. exact par_result_node. Qed.
+Print Assumptions c14_par_result_node.
+
+(* the schedule the correspondence check derives from the harness's release order is one of
+   these executions *)
+Theorem c14_par_drive_is_execution : forall fuel de want_ret quit out prio s,
+  exists arrivals, drive fuel de want_ret quit out prio s = prun de want_ret quit out s arrivals.
+Proof. exact drive_is_prun. Qed.
+Print Assumptions c14_par_drive_is_execution.
+
+(* the variant in which every reply is decoded into ret: node 0 is returned, ret ends up
+   holding the reply of node 1 *)
+Theorem c14_par_decode_every_refuted :
+  let s := prun true true false two_nodes (pinit 2 [0; 1]) [0; 1] in
+  ps_result s = Some (RNode 0, Some (Msg "q" 0 true "")) /\ ps_ret s = Some (Msg "q" 1 true "").
+Proof. exact par_decode_every_refuted. Qed.
+Print Assumptions c14_par_decode_every_refuted.
+
+(* ---- the panic barrier covers every kind of registered handler ----------------------------- *)
+
+(* callInterfaceFunc, ordinary and streaming handlers alike: a panic never leaves it ... *)
+Theorem c14_barrier_all_kinds : forall streaming h m, call_interface true streaming h m <> CCrash.
+Proof. exact barrier_all_kinds. Qed.
+Print Assumptions c14_barrier_all_kinds.
+
+Theorem c14_barrier_panic_is_error : forall streaming h m t,
+  handler h m = HPanic t -> call_interface true streaming h m = CError EPanic t.
+Proof. exact barrier_panic_is_error. Qed.
+Print Assumptions c14_barrier_panic_is_error.
+
+(* ... so no conversation on a streaming path leaves the server dead; *)
+Theorem c14_conversation_never_dead : forall msgs, snd (conversation true msgs) <> SDead.
+Proof. exact conversation_never_dead. Qed.
+Print Assumptions c14_conversation_never_dead.
+
+(* refuted when the recover is installed after the streaming branch is taken *)
+Theorem c14_barrier_streaming_lost_refuted :
+  exists h m, call_interface false true h m = CCrash /\ call_interface false false h m <> CCrash.
+Proof. exact barrier_streaming_lost_refuted. Qed.
+Print Assumptions c14_barrier_streaming_lost_refuted.
